@@ -143,7 +143,7 @@ class Violation(Exception):
 def _reject(plan):
     """Channel rejection scans ten 0.3 s snippets: only a documented use on recordings comfortably
     longer than that (every recording of the history, incl. the first run of an append)."""
-    shortest = min(plan["ns"], plan["ns_first"]) if plan["append"] else plan["ns"]
+    shortest = min(plan["ns"], plan["ns_first"]) if (plan["append"] or plan.get("rerun")) else plan["ns"]
     return bool(plan["reject"]) and shortest >= 12000
 
 
